@@ -21,7 +21,7 @@ extern "C" CK_RV vp_save(void)
 	long tok_store[(sizeof(Token) + 7) / 8]; Token* tok = (Token*)(void*)&tok_store[0];
 	long obj_store[(sizeof(P11Object) + 7) / 8 + 64]; P11Object* po = (P11Object*)(void*)&obj_store[0];
 	po->osobject = vp_obj(0);
-	po->attributes.hi = 0; po->attributes.sorted = true;
+	VP_INIT_CONTAINER(po->attributes);
 	if (IN(na) >= 1) po->attributes.insert(std::pair<CK_ATTRIBUTE_TYPE, P11Attribute*>(IN(atype0), vp_attr(0)));
 	if (IN(na) >= 2) po->attributes.insert(std::pair<CK_ATTRIBUTE_TYPE, P11Attribute*>(IN(atype1), vp_attr(1)));
 	CK_ATTRIBUTE tmpl[2]; CK_ULONG v[2];
